@@ -11,7 +11,7 @@ import tempfile
 
 from hypothesis import strategies as st
 
-from vlib import gen_maps, pipeline, xmap_text
+from vlib import gen_maps, pipeline, scale, xmap_text
 from vlib.core import VERIF_DIR, HarnessError, Sub, req
 
 PROPERTY = "C09"
@@ -116,8 +116,20 @@ def sample_filter(case):
     return out
 
 
+@st.composite
+def many_strategy(draw):
+    case = draw(scale.many_queries_case(two_part=draw(st.booleans()), counts=(257, 300)))
+    case["mode"] = draw(st.sampled_from(["all", "all", "separate", "joined"]))
+    hs = st.integers(1, 4294967295)
+    case["schedules"] = [(2, draw(st.integers(1, 10 ** 6)), draw(hs)), (draw(st.sampled_from([3, 4, 16])), draw(st.integers(1, 10 ** 6)), draw(hs))]
+    return case
+
+
 def subchecks(tier):
     q = tier == "quick"
     n = 6 if q else 10
     return [Sub("schedules", "hyp", check, strategy=lambda: strategy(n), examples=32 if q else 240, shrink_budget=4,
-                sample_filter=sample_filter, time_budget_s=3000, required_classes=("order-inverted", "cpus=16", "hashseed-varied"))]
+                sample_filter=sample_filter, time_budget_s=3000, required_classes=("order-inverted", "cpus=16", "hashseed-varied")),
+            Sub("many-queries", "hyp", check, strategy=many_strategy, examples=1 if q else 16, shrink_budget=0, shards=1 if q else 16,
+                sample_filter=scale.short, time_budget_s=3000,
+                describe="257-300 query molecules (more than any batch size tied to --cpus), -c 1 vs -c 2 and -c 3..16, side files compared too")]
